@@ -186,6 +186,10 @@ def run(tier: str) -> int:
                 path = e1.save_replay(PROP, dict(property=PROP, kind="monitor", name=spec["name"], sources=spec["sources"], opts=spec.get("opts", {}), event=e, code=r.get("code")))
                 rep.violation(f"{spec['name']}: a function whose only other reference is in dead code was emitted after the main code and is entered by fall-through ({st_.get('function_entries', {}).get(str(target))})", path)
                 continue
+            kp = next((x for x in known if x.get("program") == spec["name"] and x.get("kind") == e["kind"]), None)
+            if kp is not None:
+                rep.known(f"{kp['id']} {kp['what']}")
+                continue
             if kf is not None and e["kind"] == "fallthrough" and int(e["detail"][0]) == r.get("main_end"):
                 rep.known(f"{kf['id']} {kf['what']}")
                 continue
